@@ -415,8 +415,13 @@ def run(case):
             _write_bscale(p1, raw, bs)
             p2 = os.path.join(sc, 'phys.fits')
             bh.write_fits(p2, phys)
-            specs = [dict(base, k=0, image=p1, shape=[rows, cols], save=os.path.join(sc, 's')),
+            # (half of the scaled runs also write their maps to files: what is returned must not depend on that)
+            with_files = bool(case['seed'][-1] % 2 == 0)
+            specs = [dict(base, k=0, image=p1, shape=[rows, cols], save=os.path.join(sc, 's'),
+                          out_base=os.path.join(sc, 'scaled_out') if with_files else None),
                      dict(base, k=1, image=p2, shape=[rows, cols], save=os.path.join(sc, 'p'))]
+            if with_files:
+                o.count('bscale_runs_that_also_write_files')
             res = _run(specs, sc)
             o.n_eval += 2
             o.n_nontrivial += 1
@@ -431,7 +436,19 @@ def run(case):
                 o.count('bscale_compared')
                 if not (a[0].tobytes() == b[0].tobytes() and a[1].tobytes() == b[1].tobytes()):
                     o.violate('bscale_image_differs_from_physical', {'raw_dtype': case['raw'], 'bscale': bs, 'config': base,
+                                                                    'files_written': with_files,
                                                                     'max_dbkg': float(np.nanmax(np.abs(a[0] - b[0])))})
+                if with_files:
+                    from astropy.io import fits
+                    for name, arr in (('bkg', a[0]), ('rms', a[1])):
+                        fn = os.path.join(sc, 'scaled_out_%s.fits' % name)
+                        if not os.path.exists(fn):
+                            o.violate('file_missing', {'file': os.path.basename(fn), 'case': case})
+                            continue
+                        d = fits.getdata(fn)          # astropy applies the BSCALE of the header: physical units again
+                        o.count('bscale_files_checked')
+                        if d.shape != arr.shape or not np.allclose(d, arr, rtol=2e-7, atol=0, equal_nan=True):
+                            o.violate('bscale_file_differs_from_returned_map', {'file': name, 'raw_dtype': case['raw'], 'bscale': bs})
             o.sample = {'raw': case['raw'], 'bscale': bs}
         elif kind == 'reuse':
             # two calls in ONE process on the SAME path whose content changed in between: the second answer must be the
